@@ -97,6 +97,41 @@ func runC05(r *fw.Runner) {
 		c.Sample(map[string]interface{}{"input": jcsVectors[0].in, "output": jcsVectors[0].out})
 	})
 
+	// (a0) systematic numbers: every binary exponent x characteristic mantissas, every power of ten and its two neighbours
+	for part := 0; part < 8; part++ {
+		part := part
+		r.Case("numbers-systematic", func(c *fw.Case) {
+			mants := []uint64{0, 1, 2, 0x8000000000000, 0xfffffffffffff, 0xaaaaaaaaaaaaa, 0x5555555555555, 0xffffffffffffe, 0x10000000, 0xfffff00000000}
+			n := 0
+			for e := uint64(part); e < 2047; e += 8 {
+				for _, m := range mants {
+					f := math.Float64frombits(e<<52 | m)
+					c05OneNumber(c, f, "systematic-exponent")
+					c05OneNumber(c, -f, "systematic-exponent")
+					n += 2
+				}
+			}
+			if part == 0 {
+				for e10 := -324; e10 <= 308; e10++ {
+					f, err := strconv.ParseFloat("1e"+strconv.Itoa(e10), 64)
+					if err != nil && !math.IsInf(f, 0) && f != 0 {
+						continue
+					}
+					if math.IsInf(f, 0) {
+						continue
+					}
+					for d := -2; d <= 2; d++ {
+						g := math.Float64frombits(uint64(int64(math.Float64bits(f)) + int64(d)))
+						if !math.IsNaN(g) && !math.IsInf(g, 0) {
+							c05OneNumber(c, g, "systematic-pow10")
+							n++
+						}
+					}
+				}
+			}
+			c.Count("numbers", n)
+		})
+	}
 	// (a) numbers
 	nb := r.N(60, 2400)
 	per := r.N(2500, 8000)
@@ -305,5 +340,25 @@ func c05CheckValue(c *fw.Case, v interface{}, kind string, k int) {
 	c.Evals(1)
 	if gerr != nil || !bytes.Equal(out, want) {
 		c.Failf("govalue-not-rfc8785", map[string]interface{}{"expected": string(want), "got": string(out), "err": fmt.Sprint(gerr)}, "Go value canonicalized differently from RFC 8785 form")
+	}
+}
+
+// c05OneNumber checks one double through the byte path against the ES6 oracle.
+func c05OneNumber(c *fw.Case, f float64, class string) {
+	want, err := oracle.ES6Number(f)
+	if err != nil {
+		return
+	}
+	c.Evals(1)
+	sp := gen.SpellNumber(c.Rng, f)
+	out, cerr := canon(c, []byte("["+sp+"]"))
+	exp := 0
+	if f != 0 {
+		exp = int(math.Floor(math.Log10(math.Abs(f))))
+	}
+	c.Sig("num", class, exp/4, len(want))
+	if cerr != nil || string(out) != "["+want+"]" {
+		c.Failf("number-format", map[string]interface{}{"double_bits": fmt.Sprintf("%016x", math.Float64bits(f)), "spelling": sp, "expected": want, "got": string(out), "err": fmt.Sprint(cerr), "class": class},
+			"number %s canonicalized to %s, ES6 says %s", sp, out, want)
 	}
 }
